@@ -1,1 +1,36 @@
-From Lou Require Import Model.Pass.
+(* C08 — results are a pure function of table sources and arguments.  Statements only. *)
+From Coq Require Import List ZArith NArith Bool String.
+From Lou Require Import Gen.GStatics Model.Api Model.Statics Proofs.ApiProofs.
+Import ListNotations.
+Local Open Scope Z_scope.
+
+(* every persistent variable found in the CURRENT sources is classified (a new or renamed static
+   breaks this until someone has looked at it); all classes are of a kind that cannot carry
+   information from one call to the next *)
+Theorem statics_all_classified :
+  forallb (fun s => let '(f, _, n) := s in classified f n) statics = true.
+Proof. exact ApiProofs.statics_classified_l. Qed.
+Print Assumptions statics_all_classified.
+
+(* the table cache is keyed by the complete list string: the REGENERATED comparison holds exactly
+   for equal names (a prefix, or a name sharing a prefix, is a different key) *)
+Theorem cache_key_is_the_whole_name : forall a b, key_hit a b = true <-> a = b.
+Proof. exact ApiProofs.key_hit_iff_l. Qed.
+Print Assumptions cache_key_is_the_whole_name.
+
+(* after ANY history, a call that uses list n works on the table of n's files plus exactly the
+   rules accepted for n since the last lou_free - nothing else of the history matters *)
+Theorem history_is_irrelevant : forall compiles valid ops n,
+  compiles n = true ->
+  snd (fst (astep compiles valid (fst (arun compiles valid ainit ops)) (Use n))) =
+  RTable n (fst (accepted compiles valid ops n [] false)).
+Proof. exact ApiProofs.history_irrelevant_l. Qed.
+Print Assumptions history_is_irrelevant.
+
+(* in particular without run-time additions the result is the one of a fresh process *)
+Theorem same_as_fresh_process : forall compiles valid ops n,
+  compiles n = true -> (forall m r, ~ In (AddRule m r) ops) ->
+  snd (fst (astep compiles valid (fst (arun compiles valid ainit ops)) (Use n))) =
+  snd (fst (astep compiles valid ainit (Use n))).
+Proof. exact ApiProofs.same_as_fresh_l. Qed.
+Print Assumptions same_as_fresh_process.
